@@ -108,7 +108,7 @@ def reset_peer_runs(ctx, n):
             fails.append(("reset-peer-no-rst", "reset_peer present at connect time: peers saw %s / %s instead of a connection reset"
                           % (recv_rx.get("end"), recv_tx.get("end")), {"kind": "failing-input", "tcp": True, "case": c, "observed": r}))
         elif recv_rx.get("took_ms", 0) + 5 < c["T"] and recv_rx.get("end") == "reset":
-            fails.append(("reset-peer-early", "reset after %d ms, before timeout %d ms" % (recv_rx["took_ms"], c["T"]),
+            fails.append(("reset-peer-early", "reset after %d ms, before timeout %d ms" % (recv_rx.get("took_ms", 0), c["T"]),
                           {"kind": "failing-input", "tcp": True, "case": c, "observed": r}))
         else:
             ok += 1
